@@ -779,3 +779,14 @@ Definition inv_b (pre : list N) (s : state) : bool :=
 Inductive reachable (pre : list N) (progs : list (list op)) : state -> Prop :=
 | reach_init : reachable pre progs (init_state pre progs)
 | reach_step s t s' a : reachable pre progs s -> stepx s t = Some (s', a) -> reachable pre progs s'.
+
+(* n successive find-and-claim calls of `count` bits that all succeed: the bitmap afterwards *)
+Fixpoint claim_times (n : nat) (bm : list N) (fields start count : N) : option (list N) :=
+  match n with
+  | O => Some bm
+  | S k =>
+    match try_find_from_claim_across bm fields start count with
+    | (Some _, bm') => claim_times k bm' fields start count
+    | (None, _) => None
+    end
+  end.
